@@ -12,7 +12,10 @@ RULE = ('constraint graphs over up to 7 present names + 3 absent names + the two
         'after/before in {None, a name, a sentinel, a list of 1..3 alternatives}; names are re-added (replacing); '
         'sorter flavours: plain (default_before=LAST), tween-style (default_after=FIRST); a case is non-trivial when '
         'it has >= 2 names and at least one constraint between two present names, or ends in an error; '
-        'distinct = distinct canonical case JSON.  Streams: direct TopologicalSorter; add_tween via Configurator '
+        'distinct = distinct canonical case JSON.  Streams: direct TopologicalSorter; HISTORIES on one sorter (add / public '
+        'remove / sorted() at arbitrary points, every answer judged against the declarations in force: all canonical '
+        'histories of <= 5 ops over two names (with absent alternatives) and over three names + random ones over <= 5 names; a history is non-trivial when a present '
+        'name is removed or sorted() is asked at least twice); add_tween via Configurator '
         '(implicit + explicit pyramid.tweens) observed through enter/exit logs of a real request; '
         'add_view_deriver via Configurator observed through the wrapping order around a real view call')
 
@@ -187,6 +190,193 @@ def nontrivial(case, got):
     if 'ok' not in got['result']:
         return True
     return len(ex['decl']) >= 2 and any(a > 1 and b > 1 for a, b in ex['arcs'])
+
+
+# ---------------------------------------------------------------- sorter HISTORIES: add / public remove / sorted() anywhere
+# One long-lived TopologicalSorter; ops  ['add', n, after, before, scalar_after, scalar_before] | ['remove', n] | ['sorted'].
+# `sorted()` may be asked at ANY point and several times; every answer is compared with the model's answer for the state at
+# that point, and with the property evaluated on the declarations IN FORCE at that point (last add of every name that was
+# not removed afterwards).  remove() of a name that is not there: the real call raises ValueError from `self.names.remove`
+# before touching anything ('absent'); the model mirrors it (state unchanged).
+
+def sorted_reply(ts):
+    names = [nid(x) for x in ts.names]
+    try:
+        r = ts.sorted()
+    except CyclicDependencyError as e:
+        return {'result': {'cyclic': sorted(nid(k) for k in e.cycles)}, 'names': names}
+    except ConfigurationError as e:
+        msg = str(e)
+        kind = 'unsatBefore' if 'before dependencies' in msg else 'unsatAfter'
+        who = [w.strip() for w in msg.split(':', 1)[1].split(',')]
+        return {'result': {kind: sorted(nid(w) for w in who)}, 'names': names}
+    except Exception as e:
+        return {'result': {'raised': type(e).__name__}, 'names': names}
+    try:
+        ok_vals = all(v == 'val-%d' % nid(n) for n, v in r)
+        return {'result': {'ok': [nid(n) for n, _ in r]}, 'names': names, 'vals_ok': ok_vals}
+    except Exception as e:          # a result naming something that is not (or no longer) a known item
+        return {'result': {'raised': 'result:' + type(e).__name__}, 'names': names}
+
+
+def impl_history(case):
+    if case['flavour'] == 'plain':
+        ts = TopologicalSorter()
+    else:
+        ts = TopologicalSorter(default_before=None, default_after=FIRST, first=FIRST, last=LAST)
+    out = []
+    for op in case['hops']:
+        if op[0] == 'add':
+            _, n, a, b, sa, sb = op
+            try:
+                ts.add(name_of(n), 'val-%d' % n, after=to_arg(a, sa), before=to_arg(b, sb))
+                out.append('added')
+            except Exception as e:
+                out.append({'raised': 'add:' + type(e).__name__})
+        elif op[0] == 'remove':
+            try:
+                ts.remove(name_of(op[1]))
+                out.append('removed')
+            except ValueError:
+                out.append('absent')
+            except Exception as e:
+                out.append({'raised': 'remove:' + type(e).__name__})
+        else:
+            out.append(sorted_reply(ts))
+    return {'replies': out, 'names': [nid(x) for x in ts.names]}
+
+
+def model_history(case):
+    fl = case['flavour']
+    return {'first': 0, 'last': 1, 'defBefore': [1] if fl == 'plain' else None, 'defAfter': None if fl == 'plain' else [0],
+            'ops': [], 'explicit': [],
+            'hops': [['add', o[1], o[2], o[3]] if o[0] == 'add' else list(o) for o in case['hops']]}
+
+
+def in_force(case, k):
+    """the add-only case equivalent to the first k ops: last add of every name not removed since, in order of last addition"""
+    decl = {}
+    for op in case['hops'][:k]:
+        if op[0] == 'add':
+            decl.pop(op[1], None)
+            decl[op[1]] = op
+        elif op[0] == 'remove':
+            decl.pop(op[1], None)
+    return {'flavour': case['flavour'], 'ops': [[o[1], o[2], o[3], o[4], o[5]] for o in decl.values()]}
+
+
+def check_history(case, mo):
+    """returns (mismatch, violation, got); got['result'] = the last sorted() answer (for the distribution)"""
+    got = impl_history(case)
+    mism = viol = None
+    if mo is not None:
+        strip = lambda r: ({'result': r['result'], 'names': r['names']} if isinstance(r, dict) and 'result' in r else r)
+        if [strip(r) for r in got['replies']] != mo.get('replies') or got['names'] != mo.get('names'):
+            mism = {'case': case, 'impl': got, 'model': mo, 'stream': 'history'}
+    last = {'result': 'no-query'}
+    for k, (op, rep) in enumerate(zip(case['hops'], got['replies'])):
+        if op[0] == 'sorted':
+            last = rep
+            if viol is None:
+                eq = in_force(case, k)
+                v = property_ok(eq, rep)
+                if v:
+                    viol = {'case': case, 'at': k, 'impl': rep, 'in_force': eq['ops'], 'expected': v, 'stream': 'history',
+                            'detail': 'sorted() call number %d of a history (after %d ops): %s' % (
+                                sum(1 for o in case['hops'][:k + 1] if o[0] == 'sorted'), k, v)}
+        elif op[0] == 'add' and rep != 'added' and viol is None:
+            viol = {'case': case, 'at': k, 'impl': rep, 'expected': 'added', 'stream': 'history', 'detail': 'add() raised'}
+    return mism, viol, dict(got, result=last['result'])
+
+
+def valid_history(c):
+    try:
+        if c.get('flavour') not in ('plain', 'tween') or not c.get('hops'):
+            return False
+        for o in c['hops']:
+            if o[0] == 'add':
+                if len(o) != 6 or not valid_direct({'flavour': 'plain', 'ops': [o[1:]]}):
+                    return False
+            elif o[0] == 'remove':
+                if len(o) != 2 or not isinstance(o[1], int) or not 2 <= o[1] <= 8:
+                    return False
+            elif o != ['sorted']:
+                return False
+        return True
+    except Exception:
+        return False
+
+
+def shrink_history_case(case):
+    def fails(c):
+        return valid_history(c) and check_history(c, None)[1] is not None
+    small = vfutil.shrink(case, fails, max_steps=600)
+    _, v, _ = check_history(small, None)
+    if v is None:
+        _, v, _ = check_history(case, None)
+    return v
+
+
+def gen_history(rng):
+    npool = rng.randint(1, 5)
+    flavour = rng.choice(['plain', 'plain', 'tween'])
+    hops = []
+    for _ in range(rng.randint(2, 12)):
+        r = rng.random()
+        if r < 0.5:
+            n = rng.randrange(2, 2 + npool)
+            a = gen_constraint(rng, npool); b = gen_constraint(rng, npool)
+            hops.append(['add', n, a and a[0], b and b[0], bool(a and a[1]), bool(b and b[1])])
+        elif r < 0.72:
+            hops.append(['remove', rng.randrange(2, 2 + npool)])
+        else:
+            hops.append(['sorted'])
+    hops.append(['sorted'])
+    return {'flavour': flavour, 'hops': hops}
+
+
+def history_alphabet(k, alts):
+    """ops over the first k pool names: add x with (after, before) in {none, after y, before y[, after (absent, y),
+    before (absent, y)]} for every other name y, remove x, sorted"""
+    names = list(range(2, 2 + k))
+    ops = [['sorted']]
+    for x in names:
+        ops.append(['remove', x])
+        ops.append(['add', x, None, None, False, False])
+        for y in names:
+            if y == x:
+                continue
+            ops.append(['add', x, [y], None, True, False])
+            ops.append(['add', x, None, [y], False, True])
+            if alts:
+                ops.append(['add', x, [9, y], None, False, False])
+                ops.append(['add', x, None, [9, y], False, False])
+    return ops
+
+
+def canonical_history(hops):
+    """names are interchangeable: keep only histories that mention them in the order 2, 3, 4 (first occurrence)"""
+    nxt = 2
+    for o in hops:
+        for x in ([o[1]] + (o[2] or []) + (o[3] or []) if o[0] == 'add' else [o[1]] if o[0] == 'remove' else []):
+            if 2 <= x <= 8:
+                if x > nxt:
+                    return False
+                if x == nxt:
+                    nxt += 1
+    return True
+
+
+def small_histories(k, alts, maxlen, flavours=('plain', 'tween')):
+    """all canonical histories of <= maxlen ops over history_alphabet(k, alts) that end with sorted() and contain at
+    least one add (a history is judged at every sorted() in it, so the prefixes are covered)"""
+    alpha = history_alphabet(k, alts)
+    for n in range(2, maxlen + 1):
+        for body in itertools.product(alpha, repeat=n - 1):
+            if not any(o[0] == 'add' for o in body) or not canonical_history(body):
+                continue
+            for fl in flavours:
+                yield {'flavour': fl, 'hops': [list(o) for o in body] + [['sorted']]}
 
 
 # ---------------------------------------------------------------- configurator streams
@@ -691,11 +881,14 @@ def run(ctx):
         key = vfutil.canon([stream, case])
         if key not in seen:
             seen.add(key)
-            if stream != 'direct' or nontrivial(case, got):
+            if stream == 'history':
+                if 'removed' in got['replies'] or sum(1 for o in case['hops'] if o[0] == 'sorted') >= 2:
+                    nontriv.add(key)
+            elif stream != 'direct' or nontrivial(case, got):
                 nontriv.add(key)
 
     # 1. direct sorter: corpus, then exhaustive insertion orders of small graphs, then random
-    cases = [c for _, c in ctx.corpus() if c.get('flavour') in ('plain', 'tween') and 'stream' not in c]
+    cases = [c for _, c in ctx.corpus() if c.get('flavour') in ('plain', 'tween') and 'stream' not in c and 'ops' in c and 'hops' not in c]
     ncorp = len(cases)
     n = ctx.n(4000, 150000)
     cases += [gen_case(rng) for _ in range(n)]
@@ -712,6 +905,34 @@ def run(ctx):
         if any((o[1] and len(o[1]) > 1) or (o[2] and len(o[2]) > 1) for o in case['ops']): dist['alternative_lists'] += 1
         if any((o[1] and (0 in o[1] or 1 in o[1])) or (o[2] and (0 in o[2] or 1 in o[2])) for o in case['ops']): dist['sentinel_constraints'] += 1
     samples = cases[ncorp:ncorp + 3]
+
+    # 1b. histories on one long-lived sorter (add / public remove / sorted() at arbitrary points): corpus, every
+    # canonical history of <= 5 ops over two names (with absent alternatives) and over three names (none / after y /
+    # before y), then random ones over up to 5 names
+    dist['history_ops'] = {}; dist['history_queries'] = {}; dist['history_removes'] = {'removed': 0, 'absent': 0}
+    hist = [c for _, c in ctx.corpus() if 'hops' in c]
+    nsmall = len(hist)
+    hist += list(small_histories(2, True, 5, ('plain',)))
+    hist += list(small_histories(3, False, 5, ('plain',)))
+    nsmall = len(hist) - nsmall
+    hist += [gen_history(rng) for _ in range(ctx.n(1500, 60000))]
+    hmod = ctx.run_model([model_history(c) for c in hist]) if ctx.driver_path else [None] * len(hist)
+    hviol = 0
+    for case, mo in zip(hist, hmod):
+        m, v, got = check_history(case, mo)
+        if m: mism.append(m)
+        elif mo is not None: agree += 1
+        if v:
+            hviol += 1
+            if hviol <= 5:
+                viol.append(shrink_history_case(case))
+        account('history', case, got)
+        vfutil.bump(dist['history_ops'], len(case['hops']))
+        vfutil.bump(dist['history_queries'], sum(1 for o in case['hops'] if o[0] == 'sorted'))
+        for r in got['replies']:
+            if r in ('removed', 'absent'): dist['history_removes'][r] += 1
+    dist['history_exhaustive_small'] = nsmall
+    samples += hist[-1:]
 
     # 2. tweens through the configurator
     tcases = [gen_tween_case(rng) for _ in range(ctx.n(150, 3000))]
@@ -757,7 +978,7 @@ def run(ctx):
         account('derivers', case, got)
     samples += dcases[1:2]
 
-    total = len(cases) + len(tcases) + len(dcases) + len(hcases)
+    total = len(cases) + len(tcases) + len(dcases) + len(hcases) + len(hist)
     excl = {'flavour': 'plain', 'ops': [[2, [], None, False, False], [2, None, [1], False, True]]}
     notes = ['excluded point (Props.C18.empty_alternatives_excluded) replayed on the real code: %s' % json.dumps(impl_direct(excl)['result']),
              'excluded point: an EMPTY alternatives list (after=[] / before=[]) can never be satisfied and leaves a stale '
@@ -771,10 +992,27 @@ def run(ctx):
 
 
 def search(ctx):
-    """small-scope exhaustive: <= 3 names, each added once or twice, constraints from {None, one present name,
+    """small-scope exhaustive: histories of <= 5 ops (add / remove / sorted, see below); then <= 3 names, each added once or twice, constraints from {None, one present name,
     a sentinel, an absent name, a 2-alternative list}, both flavours, all insertion orders"""
     viol, n = [], 0
     import time
+    # histories: every canonical sequence of <= 5 ops over {add x with none / after y / before y / after (absent, y) /
+    # before (absent, y), remove x, sorted} for two names (both flavours) and three names; judged at every sorted() in it
+    hstop = time.time() + (40 if ctx.tier == 'quick' else 400)
+    hex_ = True
+    for k, alts in ((2, True), (3, True)):
+        for case in small_histories(k, alts, 5, ('plain',) if k == 3 else ('plain', 'tween')):
+            n += 1
+            _, v, _ = check_history(case, None)
+            if v:
+                viol.append(shrink_history_case(case))
+                if len(viol) >= 3:
+                    return {'violations': viol, 'searched': n, 'exhaustive': False}
+            if n % 5000 == 0 and (time.time() > hstop or ctx.time_left() < 90):
+                hex_ = False
+                break
+        if not hex_:
+            break
     stop = time.time() + (60 if ctx.tier == 'quick' else 600)
     cons = [None, [2], [3], [4], [0], [1], [9], [2, 9], [3, 4]]
     for flavour in ('plain', 'tween'):
@@ -792,7 +1030,7 @@ def search(ctx):
                             return {'violations': viol, 'searched': n, 'exhaustive': False}
                     if n % 2000 == 0 and (time.time() > stop or ctx.time_left() < 60):
                         return finish_search(ctx, viol, n, False)
-    return finish_search(ctx, viol, n, True)
+    return finish_search(ctx, viol, n, hex_)
 
 
 def finish_search(ctx, viol, n, exhaustive):
@@ -817,8 +1055,12 @@ def replay(ctx, rep):
     case = rep.get('case')
     if case is None:
         return {'violates': False, 'note': 'replay names broken obligations only', 'broken': rep.get('broken_obligations')}
-    stream = rep.get('stream') or ('derivers' if case.get('flavour') == 'deriver' else 'tween-history' if 'rounds' in case else 'tweens' if 'explicit' in case else 'direct')
-    if stream == 'direct':
+    stream = rep.get('stream') or ('history' if 'hops' in case else 'derivers' if case.get('flavour') == 'deriver' else 'tween-history' if 'rounds' in case else 'tweens' if 'explicit' in case else 'direct')
+    if 'hops' in case:
+        stream = 'history'
+        mo = ctx.run_model([model_history(case)])[0] if ctx.driver_path else None
+        m, v, got = check_history(case, mo)
+    elif stream == 'direct':
         mo = ctx.run_model([model_case(case)])[0] if ctx.driver_path else None
         m, v, got = check_direct(case, mo)
     elif stream == 'tween-history' or 'rounds' in case:
